@@ -25,7 +25,7 @@ func init() {
 			for i := 1; i <= c.n; i++ {
 				k := fmt.Sprint(i)
 				if ans[k] != c.impl[k] {
-					fmt.Printf("MISMATCH %s case %d\n line : %s\n model: %s\n impl : %s\n", c.Stage, i, c.lines[i-1], ans[k], c.impl[k])
+					fmt.Printf("MISMATCH %s case %d\n line : %s\n model: %s\n impl : %s\n", c.Stage, i, c.lines[i-1-c.first], ans[k], c.impl[k])
 				}
 			}
 			fmt.Printf("%s: %d cases\n", c.Stage, c.n)
